@@ -6,5 +6,5 @@ git diff --quiet || { echo "repo dirty"; exit 2; }
 git apply "$patch" 2>/dev/null || git apply -3 "$patch" || { echo "PATCH DOES NOT APPLY: $patch"; git checkout -- . ; exit 3; }
 /verif/check "$prop" "$tier" 2>&1 | grep -v '^  ' | tail -8
 rc=$?
-git checkout -- . ; git clean -fdq -e verif_contracts.go 2>/dev/null
+git reset -q --hard HEAD; git clean -fdq 2>/dev/null
 git status --short | head -3
